@@ -430,10 +430,11 @@ impl Leg for Executable {
         let h = crate::util::fnv64(format!("{:?}{}{}", c.recs.len(), c.k, c.bin_size).as_bytes());
         let threads = [0usize, 1, 2, 3, 8, 16, c.threads][(h % 7) as usize];
         let preset = match c.delim.as_str() { "," => super::cmd::Preset::Csv, "\t" => super::cmd::Preset::Tsv, _ => super::cmd::Preset::Spc };
-        let cmd = super::cmd::Cmd { k: c.k as u64, preset, bin_size: c.bin_size as u64, bin_count: c.bin_count as u64, memory: 6, counts: !c.norm, alt: c.alt.is_some(), threads, env_profile: ((h >> 8) % 128) as u8, ..super::cmd::Cmd::base(super::cmd::Sub::Cov) };
+        let cmd = super::cmd::Cmd { k: c.k as u64, preset, bin_size: c.bin_size as u64, bin_count: c.bin_count as u64, memory: 6, counts: !c.norm, alt: c.alt.is_some(), threads, env_profile: ((h >> 8) % 128) as u8, spell: if h % 3 == 0 { crate::util::splitmix(h) } else { 0 }, ..super::cmd::Cmd::base(super::cmd::Sub::Cov) };
         v.class("cov-executable");
         v.class_if(cmd.env_profile >> 5 & 3 == 1, "one-cpu-available");
         v.class_if(threads == 0, "threads-automatic");
+        v.class_if(cmd.spell != 0, "options-in-generated-spellings");
         let o = super::cmd::run_via_cli(&cmd, &input, alt_path.as_deref(), &out, None);
         if o.timed_out {
             v.class("cli-timeout");
